@@ -943,3 +943,23 @@ pub fn explore(ctx: &Ctx, cfg: &WorldCfg, histories: &[Vec<Ev>], par: usize, shu
         capped.load(Ordering::Relaxed),
     )
 }
+
+#[cfg(test)]
+mod count_tests {
+    use super::*;
+    #[test]
+    fn path_counts() {
+        for (kinds, sh, half) in [
+            (vec![Kind::Gate, Kind::Gate], false, false),
+            (vec![Kind::Gate, Kind::Panic], false, false),
+            (vec![Kind::Gate, Kind::Gate], true, false),
+            (vec![Kind::Gate, Kind::GateDrop], true, false),
+            (vec![Kind::Gate, Kind::Gate], false, true),
+        ] {
+            let cfg = WorldCfg { mode: HandlerTaskMode::Detached, rt: RtKind::MultiThread(2), kinds: kinds.clone(), with_shutdown: sh, with_half: half };
+            let (h, capped) = all_paths(&cfg, 3_000_000);
+            let (tc, ns) = transition_cover(&cfg);
+            eprintln!("{:?} shutdown={} half={} -> maximal paths {} (capped {}), transition cover {}, states {}", kinds, sh, half, h.len(), capped, tc.len(), ns);
+        }
+    }
+}
